@@ -150,12 +150,14 @@ func (set *TemplateSet) resolveTemplate(tpl *Template, path string) (name string
 func (set *TemplateSet) CleanCache(filenames ...string) {
 	set.templateCacheMutex.Lock()
 	defer set.templateCacheMutex.Unlock()
+	verifEv("CacheCleanCall", verifB(len(filenames) == 0), len(filenames), 0, 0, "", "", set)
 
 	if len(filenames) == 0 {
 		set.templateCache = make(map[string]*Template, len(set.templateCache))
 	}
 
 	for _, filename := range filenames {
+		verifEv("CacheClean", 0, 0, 0, 0, filename, "", set)
 		delete(set.templateCache, set.resolveFilename(nil, filename))
 	}
 }
@@ -167,11 +169,13 @@ func (set *TemplateSet) CleanCache(filenames ...string) {
 // call (to make changes to a template live instantaneously).
 func (set *TemplateSet) FromCache(filename string) (*Template, error) {
 	if set.Debug {
+		verifEv("CacheBypass", 0, 0, 0, 0, filename, "", set)
 		// Recompile on any request
 		return set.FromFile(filename)
 	}
 	// Cache the template
 	cleanedFilename := set.resolveFilename(nil, filename)
+	verifGate(nil, "FromCache.beforeLock", 0)
 
 	set.templateCacheMutex.Lock()
 	defer set.templateCacheMutex.Unlock()
@@ -182,13 +186,16 @@ func (set *TemplateSet) FromCache(filename string) (*Template, error) {
 	if !has {
 		tpl, err := set.FromFile(cleanedFilename)
 		if err != nil {
+			verifEv("CacheMissFail", 0, 0, 0, 0, filename, cleanedFilename, set)
 			return nil, err
 		}
 		set.templateCache[cleanedFilename] = tpl
+		verifEv("CacheStore", 0, 0, 0, 0, filename, cleanedFilename, set)
 		return tpl, nil
 	}
 
 	// Cache hit
+	verifEv("CacheHit", 0, 0, 0, 0, filename, cleanedFilename, set)
 	return tpl, nil
 }
 
